@@ -100,6 +100,11 @@ def run(ctx):
         specs.append(("err", p, 9, 0x80010002, b""))
     for _ in range(3000 if quick else 60000):
         specs.append(gen_spec(rng, big=not quick or rng.random() < 0.05))
+    # the top of the body range of the quantifier (0..64 KiB): every size at which header + body crosses a 16-bit boundary,
+    # for both header widths of requests and success responses, plus bodies well beyond
+    for form, p in (("req", 10), ("req", 0x7F), ("ok", 10), ("ok", 0x1234)):
+        for n in list(range(65519, 65537)) + [70000, 131072]:
+            specs.append((form, p, 0xFFFFFFFF if n % 2 else 7, 0x7FFF if form == "ok" else 3, bytes([n & 0xFF]) * n))
     lines, reals, meta = [], [], []
     def add(line, real, m):
         lines.append(line); reals.append(real); meta.append(m)
